@@ -124,6 +124,10 @@ func (e *sessEnv) send(ctx context.Context, p []byte) ([]byte, error) {
 	if item == "W" { // the socket refuses the write (link down, no buffers): nothing leaves, a *net.OpError comes back
 		return nil, &net.OpError{Op: "write", Net: "udp", Err: errors.New("network is unreachable")}
 	}
+	if strings.HasPrefix(item, "R!:") { // deliver this reply and end the caller's context at the same moment
+		item = "R:" + strings.TrimPrefix(item, "R!:")
+		e.cancel()
+	}
 	r := unhx(strings.TrimPrefix(item, "R:"))
 	for i := range e.recv { // the reused receive buffer holds stale bytes beyond the reply
 		e.recv[i] = 0xEE
@@ -252,7 +256,7 @@ func execSend(a []string) (string, string) {
 				wantSent = i + 1
 				break
 			}
-			r, _ := openReply(unhx(strings.TrimPrefix(item, "R:")), lid, integ, k1, k2)
+			r, _ := openReply(unhx(strings.TrimPrefix(strings.TrimPrefix(item, "R!:"), "R:")), lid, integ, k1, k2)
 			if r == nil || r.netFn != fn|1 || r.cmd != cmdNo || len(r.data) < len(prefix) || !bytes.Equal(r.data[:len(prefix)], prefix) {
 				continue
 			}
@@ -594,7 +598,13 @@ func genSend(g *genCtx) {
 		// the script always ends in something terminal for a session: add a final answer when the last letter is not
 		last := script[len(script)-1]
 		if !strings.ContainsRune("FEAL", rune(last)) {
-			items = append(items, "L")
+			if g.rng.Intn(2) == 0 {
+				items = append(items, "L")
+			} else {
+				// the caller's context ends while the library is handling this last (retryable) reply: the retry loop
+				// gives up in its back-off, with an error, and nothing further is transmitted
+				items[len(items)-1] = "R!:" + strings.TrimPrefix(items[len(items)-1], "R:")
+			}
 		}
 		entropy := rbytes(g.rng, 16*(len(items)+1))
 		rq := hx(req)
